@@ -15,6 +15,7 @@ import (
 
 	"verif/harness/core"
 	"verif/harness/oracle"
+	"verif/harness/twin"
 )
 
 // c08Kind is one element kind of the alphabet.
@@ -156,6 +157,18 @@ func c08Programs(c *core.Ctx) []oracle.Prog {
 	g.genValueCopy()
 	g.genNil()
 	g.genStructPtr()
+	g.genLitSeq()
+	g.genEscapedAddr()
+	g.genReenter()
+	if f := os.Getenv("VERIF_C08_FAMILY"); f != "" { // development aid: restrict to the programs whose signature contains f
+		var sel []oracle.Prog
+		for _, p := range g.progs {
+			if i := strings.Index(p.Body, "\n"); i > 0 && strings.Contains(p.Body[:i], f) {
+				sel = append(sel, p)
+			}
+		}
+		return sel
+	}
 	return g.progs
 }
 
@@ -164,10 +177,22 @@ func init() {
 		ID: "C08",
 		Rule: "families index/assign/address (containers × element kinds × i∈{-1,0,len-1,len,cap,cap+1} × const/var), 2- and 3-index slicing over all (lo,hi,max)∈{0..cap+1}^3 × const/var masks, append (prefix × cap limit × count × form, aliasing through the backing array), " +
 			"copy (all dst/src offsets and lengths on one array), map scripts (key kind × value kind), make/new (len, cap ∈ {-1,0,2,3} × const/var), composite literals, array value copies, nil dereferences, struct/pointer places; " +
+			"literal|seq: every sequence of at most L elements over {positional, key 0..K} (quick K=3 L=3, thorough K=4 L=4) for [K+1]T, [...]T, []T and (shorter in quick) nested / pointer to named slice / struct field / map value literals, plus every ordered subset of three struct fields as a keyed literal; " +
+			"reenter: a composite literal (slice, keyed slice, array, &array, map value and key, struct, nested) or append/copy/index site entered again while one of its own operands is evaluated (recursion through the site), three activations with different values × element kind; " +
+			"escaped-addr: &v returned from a function, v of the 16 integer-slot kinds and the element kinds × owner {param, local, named result, block variable, for-header variable} × chain of nested frames between owner and & over {block, for, if, switch, range, type switch, select, func literal} (quick: kind × distance 0..4 and owner × chain in full; thorough: full product with all wrapper pairs), three calls of the maker interleaved with a clobbering call; " +
 			"element kinds {int8,int,string,float64,struct{A int;B string},[2]int,*int}. Non-trivial = distinct programs whose compiled-Go result contains a run-time panic or at least one non-zero observed value, plus every program Go rejects at compile time",
 		Gen:           c08Programs,
 		Sig:           c08Sig,
 		RejectInvalid: true,
+		Runner: func(p *oracle.Prog) twin.Result {
+			if strings.HasPrefix(p.Body, "// sig: C08|escaped-addr|") {
+				// frames returned to the pool are poisoned (c06_poison_on.go, tag verif): a stale pointer into a recycled
+				// frame reads 0xDEADBEEF…; the family also detects recycling without it (clob)
+				c06InstallPoison()
+				defer c06UninstallPoison()
+			}
+			return twin.Run(twin.NewFast(), p)
+		},
 		Key: func(p *oracle.Prog, want string) string {
 			if strings.Contains(want, "PANIC") || c08NonZero(want) {
 				return p.ID + "|" + want
